@@ -623,8 +623,8 @@ Fixpoint ev (B : Backend) (x : sx) {struct x} : res (option val) :=
       | Some F' => with_l (ev B a) (fun f => lift_lo (l_try_define_map_arrow (tf_functor F') f))
       | None => Panic
       end
-  | L [Sy "forget"; a] => with_l (ev B a) (fun f => lift_l (forget 0 Nat.eqb Nat.eqb VB f))
-  | L [Sy "forget_monogamous"; a] => with_l (ev B a) (fun f => lift_l (forget_monogamous 0 Nat.eqb Nat.eqb VB f))
+  | L [Sy "forget"; a] => with_l (ev B a) (fun f => lift_l (forget 9 Nat.eqb Nat.eqb VB f))
+  | L [Sy "forget_monogamous"; a] => with_l (ev B a) (fun f => lift_l (forget_monogamous 9 Nat.eqb Nat.eqb VB f))
   | L [Sy "optic"; P; a] =>
       match d_optic P with
       | Some P' => with_l (ev B a) (fun f => lift_l (loptic_map_arrow VB Nat.eqb Nat.eqb P' f))
@@ -657,7 +657,17 @@ Definition tbl_term : list entry := [
   ("map_arrow_witness", a2 d_ftable d_lohg
      (fun F f => e_res (e_opt (e_pair e_lohg e_icf)) (l_map_arrow_witness (tf_functor F) f)));
   ("var_build", a4 (d_list d_vcmd) d_nats d_nats d_bool
-     (fun prog ins outs leaked => e_res (e_opt e_lohg) (var_build 0 prog ins outs leaked)));
+     (fun prog ins outs leaked => e_res (e_opt e_lohg) (var_build 9 prog ins outs leaked)));
+  (* Var-built term, variables forgotten, evaluated on the test signature *)
+  ("var_eval", a4 (d_list d_vcmd) d_nats d_nats d_zs
+     (fun prog ins outs inp => e_res (e_opt e_zs)
+        (r <- var_build 9 prog ins outs false ;;
+         match r with
+         | None => Ok None
+         | Some f => g <- forget 9 Nat.eqb Nat.eqb VB f ;;
+                     s <- lohg_to_strict VB Nat.eqb g ;;
+                     eval VB 0%Z apply_sig s inp
+         end)));
   (* evaluate a term with strict::eval::eval on the test signature *)
   ("term_eval", a3 d_backend Some d_zs
      (fun B x inp => e_res (e_opt e_zs)
